@@ -25,7 +25,7 @@ package responder
 //@   nopanic
 //@   requires c.response != nil && c.response.Header != nil && headers != nil && c.response.Header != headers && specCanonKeys(headers)
 //@   requires forall k key :: in(headers, k) ==> len(headers[k]) < 1000000
-//@   ensures [C01] c.response.Header == old(c.response.Header) && c.response.Header != headers
+//@   ensures [C01,C10] c.response.Header == old(c.response.Header) && c.response.Header != headers
 //@   ensures [C08] forall k key :: in(headers, k) ==> len(c.response.Header[k]) == len(headers[k])
 //@   ensures [C08] forall k key, i int :: in(headers, k) && 0 <= i && i < len(headers[k]) ==> sid(c.response.Header[k][i]) == sid(headers[k][i])
 //@   ensures [C01] forall k key :: in(headers, k) == old(in(headers, k)) && len(headers[k]) == old(len(headers[k]))
@@ -45,7 +45,7 @@ package responder
 //@   nopanic
 //@   requires c.writer != nil && headers != nil && rwheader(c.writer) != headers && specCanonKeys(headers)
 //@   requires forall k key :: in(headers, k) ==> len(headers[k]) < 1000000
-//@   ensures [C01] rwheader(c.writer) != headers
+//@   ensures [C01,C10] rwheader(c.writer) != headers
 //@   ensures [C08] forall k key :: in(headers, k) ==> len(rwheader(c.writer)[k]) == len(headers[k])
 //@   ensures [C08] forall k key, i int :: in(headers, k) && 0 <= i && i < len(headers[k]) ==> sid(rwheader(c.writer)[k][i]) == sid(headers[k][i])
 //@   ensures [C01] forall k key :: in(headers, k) == old(in(headers, k)) && len(headers[k]) == old(len(headers[k]))
